@@ -81,7 +81,14 @@ GenC02PlainInit ==
     /\ (k \in {"unary", "client"} => a = 0)
     /\ InitWith(Mk(p, k, codec, 2, <<"none", <<>>>>, 0, <<>>, 0, <<>>, <<M(1, 3)>>, <<>>, <<>>,
                    IF k \in {"unary", "client"} THEN <<M(101, 3)>> ELSE <<M(101, 3), M(102, 0)>>, Plain(m, a)))
-GenC02Spec == (GenC02Init \/ GenC02PlainInit) /\ [][FALSE]_vars
+\* the codec fails inside Send (custom codec "verifc"): internal, well-formed, nothing of the message on the wire
+GenC02BadSendInit ==
+  \E p \in Protos, k \in Kinds, a \in {0, 1}, hd \in BOOLEAN :
+    /\ (k \in {"unary", "client"} => a = 0)
+    /\ InitWith(Mk(p, k, "verifc", 2, <<"none", <<>>>>, 0, <<>>, 0, <<>>, <<M(1, 3)>>, IF hd THEN HdrB ELSE <<>>, IF hd THEN TrlB ELSE <<>>,
+                   IF k \in {"unary", "client"} THEN <<M(101, 3)>> ELSE <<M(101, 3), M(102, 0)>>,
+                   [kind |-> "badsend", code |-> 13, msg |-> "library", ndet |-> 0, meta |-> <<>>, after |-> a]))
+GenC02Spec == (GenC02Init \/ GenC02PlainInit \/ GenC02BadSendInit) /\ [][FALSE]_vars
 
 (* C08: negotiation: algorithm sets and registration orders on both sides, thresholds, sizes around them *)
 ClientSets == { <<>>, <<"rev">>, <<"rev2">>, <<"rev", "rev2">>, <<"rev2", "rev">>, <<"rev", "gzip">> }
